@@ -229,6 +229,8 @@ def native_replay(scratch, replay_file, module="boolean", timeout_s=1200):
     cmd = ["cargo", "test", "--offline", "--lib", "-p", "geo-booleanop", f"{module}::verif_k::replay_entry", "--", "--exact", "--nocapture", "--test-threads", "1"]
     p = subprocess.run(cmd, cwd=os.path.join(scratch, "lib"), capture_output=True, text=True, env=env, timeout=timeout_s)
     out = p.stdout + "\n" + p.stderr
+    if "REPLAY-NOT-AVAILABLE" in out:
+        return "not-available", out
     if "REPLAY-PRECONDITION-FALSE" in out:
         return "precondition-false", out
     if "REPLAY-PASSED" in out and p.returncode == 0:
